@@ -367,6 +367,26 @@ def readXrffH {F} (cfg : Cfg) (o : NumOracle F) (hook : Hook) : XDoc → M (DF F
         if cfg.guards && !v then throw (.exc .insufficientData)
         else pure (df, if v then df.examples.length else 0)
 
+/-! ### `dataframe::read`: the format is chosen by the extension of the file name -/
+
+/-- `std::tolower` ("C" locale) -/
+def toLower (c : Char) : Char := if isUpper c then Char.ofNat (c.toNat + 32) else c
+
+/-- `vita::iequals`: `std::equal` over both ranges with `tolower(c1) == tolower(c2)` -/
+def iequals : Str → Str → Bool
+  | [], [] => true
+  | a :: as, b :: bs => toLower a == toLower b && iequals as bs
+  | _, _ => false
+
+/-- `iequals(ext, ".xrff") || iequals(ext, ".xml")` -/
+def isXrffExt (ext : Str) : Bool := iequals ext ".xrff".toList || iequals ext ".xml".toList
+
+/-- `dataframe::read(fn, p)` for a file with extension `ext` (`fn.extension()`), content `bytes`, which
+    tinyxml2 parses to `doc`: the dataframe and the returned count -/
+def readFile {F} (cfg : Cfg) (o : NumOracle F) (p : Params) (ext : Str) (bytes : Str) (doc : XDoc) : M (DF F × Nat) :=
+  if isXrffExt ext then readXrffH cfg o p.hook doc
+  else readCsv cfg o p bytes >>= fun df => pure (df, df.examples.length)
+
 /-! ### `category_set`, `setup_terminals`, variables -/
 
 structure VarSym where
